@@ -609,3 +609,5 @@ META = {
     "Known finding: `!` (BANG) is excluded from argument parts but does not trigger quoting.",
     "more": "Also decided: the glob walker behind the path completer hands on os.listdir entries unmodified (the offered name is the file's name). Completer.parse analyses each request's whole text in that call and keeps nothing between requests. The quoting trigger's whitespace class is the Unicode one, as in the tokenizer's patterns (no re.ASCII). The scanner that finds the string the cursor is in judges 'inside a comment' only from text after the last string it scanned.",
 }
+
+META["more"] += ' The cursor shift for folded line continuations is measured on the segment cut at the cursor, not on the whole segment.'
